@@ -107,6 +107,7 @@ class Tracer:
         self._last_fc = None
         self._gs = None
         self._cur_stage = None
+        self._in_stage = False
         self._dz = None
         self.outcome = None
 
@@ -145,7 +146,9 @@ class Tracer:
 
         def w(*a, **k):
             self._cur_stage = name
+            self._in_stage = True
             ret = f(*a, **k)
+            self._in_stage = False          # (stays True when the stage function raises)
             if self.level == "full":
                 try:
                     ev = handler(a, k, ret)
@@ -252,7 +255,9 @@ class Tracer:
         crop = a[0]
         tadj = (cond.dap - cond.delayed_cds) if int(crop.CalendarType) == 1 else (cond.gdd_cum - cond.delayed_gdds)
         ev = {"e": "GrowthStage", "stage": int(cond.growth_stage), "gs": bool(a[2]), "tadj": to_num(tadj),
-              "c10": to_num(crop.Canopy10Pct), "maxc": to_num(crop.MaxCanopy), "sen": to_num(crop.Senescence)}
+              "c10": to_num(crop.Canopy10Pct), "maxc": to_num(crop.MaxCanopy), "sen": to_num(crop.Senescence),
+              # the comparisons in IEEE doubles (the 1e-12 fixed point cannot tell equality from a difference of 1e-13)
+              "cmp": [bool(tadj <= crop.Canopy10Pct), bool(tadj <= crop.MaxCanopy), bool(tadj <= crop.Senescence)]}
         return self._wp(ev, th=cond.th, pond=cond.surface_storage)
 
     def _ev_canopy_cover(self, a, k, ret):
@@ -553,6 +558,7 @@ class Tracer:
             self._wp(ev, th=ic.th, pond=ic.surface_storage)
         self.events.append(ev)
         self._reset_called = False
+        self._in_stage = False
         self._patch()
         try:
             try:
@@ -560,7 +566,9 @@ class Tracer:
             finally:
                 self._unpatch()
         except BaseException as exc:  # noqa
-            self.events.append({"e": "Crash", "phase": "step", "tsc": tsc, "stage": self._cur_stage,
+            # "driver": the exception was raised outside every stage function, i.e. in the time stepping itself (clock update, termination test,
+            # reading the day's weather row, writing the output rows)
+            self.events.append({"e": "Crash", "phase": "step", "tsc": tsc, "stage": self._cur_stage, "driver": not self._in_stage,
                                 "type": type(exc).__name__, "msg": str(exc)[:300]})
             self.outcome = {"status": "crashed", "phase": "step", "tsc": tsc, "stage": self._cur_stage,
                             "type": type(exc).__name__, "msg": str(exc)[:300]}
